@@ -104,6 +104,15 @@ def gen_cfg(rng, small=None, allow_transform=False, allow_cache=True, devices=Tr
             cfg["max_suffix_size"] = None
             suf = 4096 if kind == "ssd" else 16384
     cfg["bounds"] = {"min_prefix": minp_, "max_prefix": maxp_, "buf": buf, "suffix_threshold": thr, "suffix": suf}
+    if small and rng.random() < 0.15:
+        # aligned boundaries: suffix length == suffix threshold == a file length, prefix limit above it
+        # (whole-file prefix hash and whole-file suffix hash meet; the contents stage is skipped)
+        L = rng.choice([8, 32, 100, 200])
+        cfg["knobs"]["FCLONES_VERIF_SUFFIX_THRESHOLD"] = rng.choice([L, L, max(1, L // 2)])
+        cfg["max_suffix_size"] = L
+        cfg["max_prefix_size"] = L + rng.choice([1, 10, 100])
+        cfg["bounds"] = {"min_prefix": minp_, "max_prefix": cfg["max_prefix_size"], "buf": buf,
+                         "suffix_threshold": cfg["knobs"]["FCLONES_VERIF_SUFFIX_THRESHOLD"], "suffix": L}
     cfg["threads"] = rng.choice([["1"], ["main:1"], [], ["2"], ["default:1,1"], ["ssd:3,2", "hdd:1,1", "unknown:2,3"],
                                  ["main:2", "default:4,1"], ["16"], ["0"]])
     cfg["cache"] = allow_cache and rng.random() < 0.2
